@@ -278,6 +278,7 @@ def run(p, rep, tier):
 
     c02.r6(p, rep)  # non-integer sizes are rejected by a guard, not by a failing conversion deep in the solver
     c12.r7(p, rep)  # an exclusive end position used as a caret position trips the asserts of the error constructors
+    c12.r9(p, rep)  # an element taken from a sequence before the guard that protects it raises IndexError
     c12.r8(p, rep)  # a number test that disagrees with int() lets int() raise instead of the parser
     rep.assume("exceptions raised by third-party code (numpy, sympy) outside the wrapped call are not modelled")
     # inventory (does not gate): assert statements in the validation layer, split by whether the tested expression
